@@ -93,6 +93,44 @@ def reachable(db, root):
     return [n] + reachable(db, n[1:33]) + reachable(db, n[33:65])
 
 
+class OverlayDb(dict):
+    """a copy-on-write database: a dict subclass that serves part of the nodes by delegation to an earlier store"""
+
+    def __init__(self, parent):
+        super().__init__()
+        self.parent = parent
+
+    def __missing__(self, key):
+        return self.parent[key]
+
+    def __contains__(self, key):
+        return dict.__contains__(self, key) or key in self.parent
+
+
+def overlay_db_agrees(res, db, root, probes):
+    """the four readers over a dict-subclass database holding half of the nodes itself and delegating the rest: same results"""
+    keys = sorted(db)
+    ov = OverlayDb({k: db[k] for k in keys[::2]})
+    for k in keys[1::2]:
+        ov[k] = db[k]
+
+    def call(fn, d, *a):
+        try:
+            r = fn(d, *a)
+            return str(r) if isinstance(r, bool) else nodes_txt(list(r))
+        except Exception as e:  # noqa
+            return "exn " + type(e).__name__
+    for name, fn, args in [("get_trie_nodes", get_trie_nodes, [(root,)])] + \
+            [(n, f, [(root, k) for k in probes[:6]]) for n, f in (("get_branch", get_branch), ("check_if_branch_exist", check_if_branch_exist),
+                                                                  ("get_witness_for_key_prefix", get_witness_for_key_prefix))]:
+        for a in args:
+            plain, over = call(fn, db, *a), call(fn, ov, *a)
+            if plain != over:
+                res.fail("overlay-db-differs", "%s%r over a copy-on-write dict subclass holding the same nodes gives %s, over the plain dict %s"
+                         % (name, a[1:], over[:120], plain[:120]))
+    res.tags.add("overlay-db")
+
+
 def raw_level_partial(res, db, root, probes, rng):
     """the four readers of branches.py on a database with one node missing, and on an older root: compared with the
     raw-level transcription (Model/BranchRaw.lean) which reads the same database"""
@@ -263,6 +301,7 @@ def run_case(case):
                     res.fail("witness-insufficient", "witness for %r cannot answer get(%r): a node is missing" % (k, q))
     tn = list(get_trie_nodes(db, root))
     res.emit("bin.nodes 0", nodes_txt(tn))
+    overlay_db_agrees(res, db, root, probes)
     res.emit("bin.rnodes %s" % hx(root), nodes_txt(tn))
     raw_level_partial(res, db, root, probes, rng)
     if tn != allnodes:
